@@ -63,7 +63,7 @@ def run(run):
             reqs.append(f"s2q {q} {o}")
     # nearest-face selection: uniform points and points within 1e-9 of a seam between two faces
     pts = []
-    n = 3000 if quick else 200000
+    n = run.n(3000, 200000)
     for _ in range(n):
         m = rng.random()
         if m < 0.6:
